@@ -10,6 +10,7 @@ from vpm.ref.mdp import RefMDP
 from vpm.checks.c03 import heuristic_specs, make_heuristic, policy_closure
 
 PROPERTY_ID = "C04"
+FUZZ = {"props": ["lrtdp"], "quick": [2, 800], "thorough": [8, 30000]}
 RULE = ("Proper MDP specs (every policy reaches an explicitly absorbing state w.p.1; gamma=1 or <1; p_min>=1/4), "
         "initial distributions that put mass on absorbing states, stochastic branching x admissible heuristic "
         "(constant bound, exact, exact + slack incl. positive values at absorbing states) x error margin in "
